@@ -484,8 +484,20 @@ def call_attr(run: Any, f: ast.Attribute, n: ast.Call) -> Any:
     if isinstance(recv, V) and isinstance(recv.ty, TRef):
         fm = run.p.find_method(recv.ty.cls, m)
         if fm is None:
-            # a callable stored in a field?
-            raise Unsupported('method %s.%s not found' % (recv.ty.cls, m))
+            if run.p.field_owner(recv.ty.cls, m) is not None:
+                # a callable object stored in a field: obj.field(args)
+                callee = run.unalias(ex.read_field(st, recv, m))
+                if isinstance(callee, V) and isinstance(callee.ty, TOpt):
+                    so = run.S.sort(callee.ty)
+                    run.implicit(so.is_some(callee.t), 'TypeError', f)
+                    callee = V(so.v(callee.t), callee.ty.inner)
+                if isinstance(callee, V) and isinstance(callee.ty, TRef):
+                    args, kwargs = args_of(run, n)
+                    return opaque_or_method(
+                        run, callee, '__call__', args, kwargs, n,
+                    )
+            args, kwargs = args_of(run, n)
+            return opaque_or_method(run, recv, m, args, kwargs, n)
         defcls, node = fm
         args, kwargs = args_of(run, n)
         return call_function(
@@ -514,6 +526,75 @@ def call_attr(run: Any, f: ast.Attribute, n: ast.Call) -> Any:
             raise Unsupported('method on untyped dict')
         raise Unsupported('call of external %s.%s' % (recv.name, m))
     raise Unsupported('method %s on %r' % (m, recv))
+
+
+def opaque_or_method(
+    run: Any, recv: V, m: str, args: list[Any], kwargs: dict[str, Any],
+    site: Any,
+) -> Any:
+    """Method call on an object of a class without verified source."""
+    ex, st = run.ex, run.st
+    cls = recv.ty.cls
+    qual = '%s.%s' % (cls, m)
+    for c in run.p.mro(cls):
+        if '%s.%s' % (c, m) in run.p.contracts:
+            qual = '%s.%s' % (c, m)
+            break
+    c = run.p.contracts.get(qual)
+    if c is not None and not run.spec_mode:
+        node = ast.parse(
+            'def %s(self, %s): pass' % (m, ', '.join(c.params)),
+        ).body[0]
+        return apply_contract(
+            run, c, node, [recv] + args, kwargs, cls, qual, site,
+        )
+    ci = run.p.classes[cls]
+    if not getattr(ci, 'opaque', False):
+        raise Unsupported('method %s.%s not found' % (cls, m))
+    if run.spec_mode:
+        raise Unsupported('opaque call in a pure context')
+    if kwargs:
+        args = args + list(kwargs.values())
+    items = ([recv] + args + [None, None])[:3]
+    ex.log_effect(st, qual, *items)
+    # forget the abstract state of the receiver and of opaque arguments,
+    # and every field of an argument object of a verified class (the callee
+    # may assign any of them)
+    touched = [] if m in ci.pure else [recv] + args
+    # ... and the objects stored directly in the fields of the arguments
+    for v in list(touched):
+        if not (isinstance(v, V) and isinstance(v.ty, TRef)):
+            continue
+        for cn in run.p.mro(v.ty.cls):
+            for fld, fty in run.p.classes[cn].fields.items():
+                if isinstance(fty, TRef):
+                    touched.append(ex.read_field(st, v, fld))
+    for v in touched:
+        if not (isinstance(v, V) and isinstance(v.ty, TRef)):
+            continue
+        for cn in run.p.mro(v.ty.cls):
+            for fld, fty in run.p.classes[cn].fields.items():
+                arr = ex.heap_arr(st, cn, fld, fty)
+                nv = ex.fresh('hv_' + fld, fty)
+                ex.known(st, nv)
+                st.heap[(cn, fld)] = z3.Store(arr, v.t, nv.t)
+    rty = run.p.tenv.parse(ci.returns.get(m, 'Any'))
+    if rty is TBool:
+        return V(eff_ret_bool(run)(st.eff_len - 1), TBool)
+    if rty is TNone:
+        return ex.as_v(st, None)
+    r = ex.fresh('ret_' + m, rty)
+    ex.known(st, r)
+    return r
+
+
+def eff_ret_bool(run: Any) -> Any:
+    ex = run.ex
+    if not hasattr(ex, '_eff_ret_bool'):
+        ex._eff_ret_bool = z3.Function(
+            'eff_ret_bool', z3.IntSort(), z3.BoolSort(),
+        )
+    return ex._eff_ret_bool
 
 
 def dotted_name(n: ast.AST) -> str | None:
@@ -942,6 +1023,17 @@ def spec_call(run: Any, name: str, n: ast.Call) -> Any:
         return V(z3.Implies(run.truth(n.args[0]), run.truth(n.args[1])), TBool)
     if name == 'iff':
         return V(run.truth(n.args[0]) == run.truth(n.args[1]), TBool)
+    if name == 'old0':
+        # value at the entry of the function under verification (inside a
+        # loop invariant old() means "at loop entry")
+        saved_old, saved_entry = run.old, run.entry_locs
+        run.old = run.entry_snap
+        run.entry_locs = dict(run.fn_entry_locs)
+        try:
+            node = ast.Call(ast.Name('old', ast.Load()), n.args, [])
+            return spec_call(run, 'old', node)
+        finally:
+            run.old, run.entry_locs = saved_old, saved_entry
     if name == 'old':
         if run.old is None:
             raise Unsupported('old() outside a postcondition')
@@ -1028,6 +1120,10 @@ def spec_call(run: Any, name: str, n: ast.Call) -> Any:
         return ex.coerce(
             st, V(ex.Eff.a(z3.Select(st.eff_arr, i)), TAny), ty,
         )
+    if name == 'eff_ret':
+        # boolean result of the opaque call logged as effect i (a function
+        # of the position only: the value the environment returned there)
+        return V(eff_ret_bool(run)(run.evalv(n.args[0]).t), TBool)
     if name in ('eff_b', 'eff_c'):
         i = run.evalv(n.args[0]).t
         ty = run.p.tenv.parse(ast.literal_eval(n.args[1]))
